@@ -20,6 +20,7 @@ import (
 	"bytes"
 	"encoding/binary"
 	"errors"
+	"unicode"
 	"unicode/utf16"
 
 	"github.com/sassoftware/relic/v8/lib/redblack"
@@ -228,5 +229,28 @@ func lessDirEnt(i, j interface{}) bool {
 	if e.NameLength != f.NameLength {
 		return e.NameLength < f.NameLength
 	}
-	return e.name < f.name
+	// MS-CFB 2.6.4: names of equal length are ordered by comparing their
+	// UTF-16 code units after conversion to upper case
+	n := int(e.NameLength) / 2
+	if n > len(e.NameRunes) {
+		n = len(e.NameRunes)
+	}
+	for k := 0; k < n; k++ {
+		a, b := upperUnit(e.NameRunes[k]), upperUnit(f.NameRunes[k])
+		if a != b {
+			return a < b
+		}
+	}
+	return false
+}
+
+func upperUnit(c uint16) uint16 {
+	if c >= 0xd800 && c <= 0xdfff {
+		// surrogates have no case
+		return c
+	}
+	if u := unicode.ToUpper(rune(c)); u <= 0xffff {
+		return uint16(u)
+	}
+	return c
 }
